@@ -329,12 +329,17 @@ def gen_fock(rng, opts):
 def _gaussian_gate(g):
     rng = g.rng
     n = len(g.active)
-    choices = [("passive", 4), ("Squeezing", 3), ("Displacement", 3), ("PositionDisplacement", 1), ("MomentumDisplacement", 1), ("QuadraticPhase", 1), ("Attenuator", 1)]
+    choices = [("passive", 4), ("Squeezing", 3), ("Displacement", 3), ("PositionDisplacement", 1), ("MomentumDisplacement", 1), ("QuadraticPhase", 1), ("Attenuator", 1), ("GaussianTransform", 1)]
     if n >= 2:
-        choices += [("Squeezing2", 1), ("ControlledX", 1), ("ControlledZ", 1)]
+        choices += [("Squeezing2", 1), ("ControlledX", 1), ("ControlledZ", 1), ("Graph", 1)]
     t = rng.weighted(choices)
     if t == "passive":
         return passive_gate(g)
+    if t == "Graph":
+        return {"type": "Graph", "modes": None, "params": {"adjacency_matrix": {"$": "adj", "n": n, "seed": rng.randrange(1000)}, "mean_photon_number": _r(rng.uniform(0.2, 1.0))}}
+    if t == "GaussianTransform":
+        r = _small(rng, 0.4)
+        return {"type": "GaussianTransform", "modes": g.pick_modes(1), "params": {"passive": {"$": "sympl_sq", "n": 1, "r": r, "part": "passive"}, "active": {"$": "sympl_sq", "n": 1, "r": r, "part": "active"}}}
     if t == "Attenuator":  # an instruction with its own _validate and an outcome-dependent parameter
         return g.maybe_adaptive({"type": t, "modes": g.pick_modes(1), "params": {"theta": _angle(rng), "mean_thermal_excitation": _r(rng.uniform(0.0, 0.3))}}, "theta", 0.5)
     if t == "Squeezing":
